@@ -113,3 +113,146 @@ def check_uniformity_shortcuts(ctx, modules, prefix):
                f"(equal `{ws[0]}` does not imply equal `{z}`)", bool(z_from_w), u(t.test)[:100], key=f"{prefix}|uniformity-shortcut|{fi.module.name}|{fi.qualname}|{z}", definite=True)
     ctx.count("functions scanned for all-alike shortcuts", scanned)
     return len(sites)
+
+
+# ---------------------------------------------------------------------------------------------------------------------------------------------------------------
+# ENDPOINT SAMPLE: `if x[0] == x[-1]: <treat every record like x[0]>`.  First == last says something about the records in between only when the column is known
+# to be grouped / sorted.  The instances of the reference tree were read; a new one is reported (the caller's records need not be grouped).
+ENDPOINT_CONFIRMED = {
+    ("bionumpy.streams.groupby_func", "groupby"): "the key column of a group-by is grouped by contract (documented: 'must be sorted'); first == last there means a single group",
+}
+
+
+def endpoint_sample_sites(ix, modules):
+    out, scanned = [], 0
+    for mod in modules:
+        if mod not in ix.modules:
+            continue
+        for fi in ix.module(mod).functions.values():
+            if isinstance(fi.node, ast.Lambda):
+                continue
+            scanned += 1
+            for t in [x for x in ast.walk(fi.node) if isinstance(x, (ast.If, ast.IfExp))]:
+                for c in ast.walk(t.test):
+                    if isinstance(c, ast.Compare) and len(c.ops) == 1 and isinstance(c.ops[0], ast.Eq):
+                        l, r = c.left, c.comparators[0]
+                        if isinstance(l, ast.Subscript) and isinstance(r, ast.Subscript) and u(l.value) == u(r.value) and {u(l.slice), u(r.slice)} == {"0", "-1"}:
+                            out.append((fi, u(l.value), t))
+    return out, scanned
+
+
+def check_endpoint_samples(ctx, modules, prefix):
+    sites, scanned = endpoint_sample_sites(ctx.index, modules)
+    for fi, base, t in sites:
+        key = (fi.module.name, fi.qualname)
+        if key in ENDPOINT_CONFIRMED:
+            ctx.ob(fi.where, f"first == last of `{base}` taken as 'all alike': confirmed instance ({ENDPOINT_CONFIRMED[key]})", True, "", key=f"{prefix}|endpoint-sample|{key[0]}|{key[1]}", definite=True)
+            continue
+        # an exhaustive test in the same condition (np.all over the whole column) makes the sample redundant, hence harmless
+        exhaustive = any(isinstance(c, ast.Call) and u(c.func) in ("np.all", "all") and base in u(c) and "[-1]" not in u(c) for c in ast.walk(t.test))
+        ctx.ob(fi.where, f"`{base}[0] == {base}[-1]` is taken to mean that every record has that value: true only for a grouped / sorted column, and nothing makes the "
+               f"records handed to `{fi.qualname}` grouped (a record of another group between two of the same group gets the first one's value)", exhaustive,
+               u(t.test)[:120], key=f"{prefix}|endpoint-sample|{key[0]}|{key[1]}", definite=True)
+    ctx.count("functions scanned for first == last shortcuts", scanned)
+    return len(sites)
+
+
+# ---------------------------------------------------------------------------------------------------------------------------------------------------------------
+# INDEX CAST: inside `__getitem__` / `__setitem__` the index is converted to an integer array (`np.asarray(idx, dtype=int)`, `idx.astype(int)`) without first
+# excluding boolean masks.  A mask written as a list ([True, False, ...]) then becomes the fancy index [1, 0, ...]: no error, wrong rows.  npstructures uses the
+# cast only for EMPTY lists (a float array otherwise); the same guard (len(idx) == 0) or a dtype / bool test makes it safe.
+_CASTS = ("np.asarray", "np.asanyarray", "np.array")
+_INT = ("int", "np.int64", "np.int32", "np.intp", "'int'", "np.int_")
+
+
+def index_cast_sites(ix, modules):
+    out, scanned = [], 0
+    for mod in modules:
+        if mod not in ix.modules:
+            continue
+        for fi in ix.module(mod).functions.values():
+            if isinstance(fi.node, ast.Lambda) or fi.qualname.split(".")[-1] not in ("__getitem__", "__setitem__", "_get_row", "_get_rows"):
+                continue
+            scanned += 1
+            if len(fi.params) < 2:
+                continue
+            idx = fi.params[1]
+
+            def visit(stmts, guards):
+                for s in stmts:
+                    if isinstance(s, ast.If):
+                        g = u(s.test)
+                        visit(s.body, guards + [g])
+                        visit(s.orelse, guards + ["not (" + g + ")"])
+                        continue
+                    for c in ast.walk(s):
+                        cast = None
+                        if isinstance(c, ast.Call) and u(c.func) in _CASTS and c.args and u(c.args[0]) == idx and any(k.arg == "dtype" and u(k.value) in _INT for k in c.keywords):
+                            cast = c
+                        if isinstance(c, ast.Call) and isinstance(c.func, ast.Attribute) and c.func.attr == "astype" and u(c.func.value) == idx and c.args and u(c.args[0]) in _INT:
+                            cast = c
+                        if cast is not None:
+                            out.append((fi, idx, cast, list(guards)))
+                    for blk in ("body", "orelse", "finalbody"):
+                        if hasattr(s, blk) and not isinstance(s, ast.If) and isinstance(getattr(s, blk), list):
+                            visit([x for x in getattr(s, blk) if isinstance(x, ast.stmt)], guards)
+            visit(fi.node.body, [])
+    return out, scanned
+
+
+def check_index_casts(ctx, modules, prefix):
+    sites, scanned = index_cast_sites(ctx.index, modules)
+    for fi, idx, cast, guards in sites:
+        g = " and ".join(guards)
+        safe = any(t in g for t in (f"len({idx}) == 0", f"len({idx})==0", "bool", ".dtype", f"not {idx}")) and not any(gg.startswith("not (") and ("bool" in gg or "len(" in gg) for gg in guards)
+        ctx.ob(fi.where, f"the index `{idx}` is cast to an integer array: a boolean mask given as a Python list would silently become the fancy index of its 0/1 values, "
+               "so the cast must be limited to empty lists or to non-boolean data", safe, f"{u(cast)} under [{g}]", key=f"{prefix}|index-cast|{fi.module.name}|{fi.qualname}", definite=True)
+    ctx.count("item-access methods scanned for integer casts of the index", scanned)
+    return len(sites)
+
+
+# ---------------------------------------------------------------------------------------------------------------------------------------------------------------
+# PANDAS LABELS: `s[i] for i in range(len(s))` on something that may be a pandas Series (the branch is entered through `hasattr(x, 'to_numpy')` or
+# isinstance(x, pd.Series)).  Integer subscripts of a Series are LABELS: on a sorted / filtered frame the values come back in label order (or KeyError) while the
+# other columns are converted positionally (`to_numpy`, `.values`, `.iloc`).
+def pandas_label_sites(ix, modules):
+    out, scanned = [], 0
+    for mod in modules:
+        if mod not in ix.modules:
+            continue
+        for fi in ix.module(mod).functions.values():
+            if isinstance(fi.node, ast.Lambda):
+                continue
+            scanned += 1
+            for t in [x for x in ast.walk(fi.node) if isinstance(x, ast.If)]:
+                gt = u(t.test)
+                m = None
+                for c in ast.walk(t.test):
+                    if isinstance(c, ast.Call) and u(c.func) == "hasattr" and len(c.args) == 2 and isinstance(c.args[1], ast.Constant) and c.args[1].value in ("to_numpy", "iloc", "loc"):
+                        m = u(c.args[0])
+                    if isinstance(c, ast.Call) and u(c.func) == "isinstance" and len(c.args) == 2 and ("Series" in u(c.args[1]) or "DataFrame" in u(c.args[1])):
+                        m = u(c.args[0])
+                if m is None or gt.startswith("not "):
+                    continue
+                for st in t.body:
+                    for comp in [x for x in ast.walk(st) if isinstance(x, (ast.ListComp, ast.GeneratorExp, ast.For))]:
+                        gens = comp.generators if not isinstance(comp, ast.For) else [comp]
+                        for g in gens:
+                            it = g.iter
+                            if isinstance(it, ast.Call) and u(it.func) == "range" and it.args and f"len({m})" in u(it.args[-1]) and isinstance(g.target, ast.Name):
+                                body = [comp.elt] if not isinstance(comp, ast.For) else comp.body
+                                for b in body:
+                                    for s in ast.walk(b):
+                                        if isinstance(s, ast.Subscript) and u(s.value) == m and u(s.slice) == g.target.id:
+                                            out.append((fi, m, s))
+    return out, scanned
+
+
+def check_pandas_labels(ctx, modules, prefix):
+    sites, scanned = pandas_label_sites(ctx.index, modules)
+    for fi, m, s in sites:
+        ctx.ob(fi.where, f"`{u(s)}` with a position from range(len({m})) on a pandas object looks the value up by index LABEL: after sort_values / filtering the labels are "
+               "not 0..n-1 in order, so this column is read in another order than the columns converted positionally (use .to_numpy() / .iloc)", False, u(s),
+               key=f"{prefix}|pandas-label|{fi.module.name}|{fi.qualname}", definite=True)
+    ctx.count("functions scanned for label-based reads of pandas columns", scanned)
+    return len(sites)
